@@ -308,14 +308,30 @@ def value_paths(F, rep):
     fexpr = F.fn(TC + "expression")
     rep.analysed(fexpr)
     # (1) if / case used as a value: a branch that yields no value must make the whole expression valueless
+    fl_e = Flow(fexpr, fn_body(fexpr))
     for v in ("If", "Case"):
         for arm, alt in tc.arm_of(F, fexpr, E, v):
+            # somewhere in the arm the *absence* of a branch's value is looked at: is_none() / is_some() / a match on an
+            # Option that is the value half of an expression_block result (whatever the local is called)
             distinguishes = False
+
+            def is_block_value(e):
+                d = tc.describe(fl_e, e)
+                if d.startswith("blockvalue:"):
+                    return True
+                # an element of a collection of (.., .., value) triples built from expression_block results
+                e0 = peel(e)
+                if e0.get("k") == "Path" and e0.get("res") == "Local":
+                    o = fl_e.origin.get(e0["hid"])
+                    if o and o["kind"] in ("closure", "for") and o.get("src") is not None:
+                        base = fl_e.trace(tc._iter_base(o["src"]))
+                        return isinstance(base, dict) and any(callee(c) == TC + "expression_block" for c in nodes(base, "MethodCall"))
+                return False
             for c in nodes(arm["body"], "MethodCall"):
-                if c["m"] in ("is_none", "is_some", "all", "any") and any("value" in (x.get("name") or "") for x in nodes(c, "Path")):
+                if c["m"] in ("is_none", "is_some") and is_block_value(c["recv"]):
                     distinguishes = True
             for m in nodes(arm["body"], "Match"):
-                if "Option<sylt_common::TyID>" in (m.get("scrut_ty") or "") and any("value" in (x.get("name") or "") for x in nodes(m["scrut"], "Path")):
+                if "Option<sylt_common::TyID>" in (m.get("scrut_ty") or "") and is_block_value(m["scrut"]):
                     distinguishes = True
             rep.ob("VALUE-PATH", "expression|%s|branch-without-value" % v, distinguishes,
                    "a branch that yields no value makes the whole %s valueless" % v.lower() if distinguishes else
